@@ -293,6 +293,13 @@ LAYOUT_PROBES = [
     ('xml: columnMinimumWidth alone', _grid('    QLabel { QLayout.columnMinimumWidth: 9 }\n'), ('attrs_exact', ['columnminimumwidth'])),
     ('xml: columnStretch alone', _grid('    QLabel { QLayout.columnStretch: 9 }\n'), ('attrs_exact', ['columnstretch'])),
     ('xml: rowMinimumHeight alone, nothing else', _grid('    QLabel { QLayout.rowMinimumHeight: 9 }\n'), ('attrs_exact', ['rowminimumheight'])),
+    ('item: spans and alignment are copied', _grid('    QLabel { QLayout.rowSpan: 2; QLayout.columnSpan: 3; QLayout.alignment: Qt.AlignTop }\n', 'columns: 4'), ('item_attrs', {'row': '0', 'column': '0', 'rowspan': '2', 'colspan': '3', 'alignment': 'Qt::AlignTop'})),
+    ('item: only rowSpan', _grid('    QLabel {}\n    QLabel { QLayout.rowSpan: 2 }\n'), ('item_attrs_last', {'row': '0', 'column': '1', 'rowspan': '2'})),
+    ('item: only columnSpan', _grid('    QLabel { QLayout.columnSpan: 2 }\n'), ('item_attrs', {'row': '0', 'column': '0', 'colspan': '2'})),
+    ('flow: columns 0 diagnosed', _grid('    QLabel {}\n', 'columns: 0'), ('reject', 'negative or zero columns')),
+    ('flow: columns 65537 diagnosed', _grid('    QLabel {}\n', 'columns: 65537'), ('reject', 'columns is too large')),
+    ('flow: columns 65536 accepted', _grid('    QLabel {}\n    QLabel {}\n', 'columns: 65536'), ('cells', [(0, 0), (0, 1)])),
+    ('flow: columns 1 wraps every child', _grid('    QLabel {}\n    QLabel {}\n', 'columns: 1'), ('cells', [(0, 0), (1, 0)])),
     ('form: cells', 'import qmluic.QtWidgets\nQWidget {\n  QFormLayout {\n    QLabel {}\n    QLabel {}\n    QLabel { QLayout.row: 3; QLayout.column: 1 }\n  }\n}\n', ('cells', [(0, 0), (0, 1), (3, 1)])),
     ('vbox: stretch at position', 'import qmluic.QtWidgets\nQWidget {\n  QVBoxLayout {\n    QLabel {}\n    QLabel { QLayout.rowStretch: 3 }\n  }\n}\n', ('attr_at', 'stretch', 1, '3', 2)),
     ('hbox: stretch at position', 'import qmluic.QtWidgets\nQWidget {\n  QHBoxLayout {\n    QLabel {}\n    QLabel {}\n    QLabel { QLayout.columnStretch: 4 }\n  }\n}\n', ('attr_at', 'stretch', 2, '4', 3)),
@@ -319,6 +326,11 @@ def replay_layout_probes(workdir):
             if not cells:
                 cells = [(int(b), int(a)) for a, b in re.findall(r'<item[^>]*\bcolumn="(\d+)"[^>]*\brow="(\d+)"', r.ui)]
             ok, got = cells == exp[1], cells
+        elif exp[0] in ('item_attrs', 'item_attrs_last'):
+            items = re.findall(r'<item([^>]*)>', r.ui)
+            it_ = items[-1] if exp[0] == 'item_attrs_last' else (items[0] if items else '')
+            got = dict(re.findall(r'(\w+)="([^"]*)"', it_))
+            ok = got == exp[1]
         elif exp[0] == 'attrs_exact':
             m = re.search(r'<layout class="QGridLayout"([^>]*)>', r.ui)
             got = sorted(a for a in re.findall(r'(\w+)="', m.group(1)) if a not in ('class', 'name')) if m else None
@@ -1086,3 +1098,213 @@ def replay_palette_role(role, workdir):
     with open(os.path.join(workdir, 'README.txt'), 'w') as f:
         f.write(f'qmluic generate-ui Pal.qml ; role {role}: expected colour [16,32,48], got {got}\n')
     return not ok, info
+
+
+# ================================================================================================ C19 colour -> gadget
+def c19_color_gadget(fns, consts):
+    ob = _ob('c19_mir_color_to_gadget', 'uigen::gadget::<impl From<Color> for Gadget>::from (+ its two closures)', 'both Color variants, all channel values (calls uninterpreted)',
+             'an opaque colour is written with alpha 255, a translucent one with its own alpha; red/green/blue elements carry the channel of the same name')
+    t0 = time.time()
+    bad = []
+    try:
+        rgb_fields = struct_fields('lib/src/color.rs', 'ColorRgb8')
+        rgba_fields = struct_fields('lib/src/color.rs', 'ColorRgba8')
+        cands = [f for n, f in fns.items() if n.endswith('::from') and f.header.startswith('fn gadget::') and '(_1: Color)' in f.header]
+        if len(cands) != 1:
+            raise M.MirError(f'{len(cands)} candidates for From<Color> for Gadget')
+        it = M.Interp(cands[0], consts)
+        paths = [p for p in it.run() if p.end == 'return']
+        seen = set()
+        for p in paths:
+            tr = '\n'.join(p.trace)
+            variant = 'Rgb8' if ' as Rgb8)' in tr else ('Rgba8' if ' as Rgba8)' in tr else None)
+            if variant is None or variant in seen:
+                bad.append('cannot attribute a path to a Color variant')
+                continue
+            seen.add(variant)
+            fields = rgb_fields if variant == 'Rgb8' else rgba_fields
+            pairs = {}
+            for c in p.calls:
+                if c.callee.endswith('::call') and len(c.args) == 2 and isinstance(c.args[1], M.Tup) and isinstance(c.args[1].items[0], tuple):
+                    pairs[c.args[1].items[0][1]] = c.args[1].items[1]
+            for ch in ('red', 'green', 'blue'):
+                v = pairs.get(ch)
+                want = it.leaf(f'_1@{variant}.0.{fields.index(ch)}', 'u8')
+                if v is None or not z3.is_expr(v):
+                    bad.append(f'{variant}: no <{ch}> element')
+                else:
+                    _unsat([v != want], bad, f'{variant}: <{ch}> carries {v} instead of the {ch} channel')
+            a = pairs.get('alpha')
+            if a is None or not z3.is_expr(a):
+                bad.append(f'{variant}: no alpha attribute')
+            elif variant == 'Rgb8':
+                _unsat([a != 255], bad, f'opaque colour is written with alpha {a}, not 255')
+            else:
+                _unsat([a != it.leaf(f'_1@Rgba8.0.{rgba_fields.index("alpha")}', 'u8')], bad, f'translucent colour is written with alpha {a}')
+            if set(pairs) != {'red', 'green', 'blue', 'alpha'}:
+                bad.append(f'{variant}: elements {sorted(pairs)}')
+        if seen != {'Rgb8', 'Rgba8'}:
+            bad.append(f'variants seen: {sorted(seen)}')
+        # the two closures pair the given name with the given number
+        for cl in [f for n, f in fns.items() if re.search(r'gadget::<impl at src/uigen/gadget\.rs:\d+:1: \d+:\d+>::from::\{closure#\d\}$', n) and '(&str, u8)' not in n]:
+            ci = M.Interp(cl, consts)
+            ps = [p for p in ci.run() if p.end == 'return']
+            if len(ps) != 1 or not isinstance(ps[0].ret, M.Tup) or len(ps[0].ret.items) != 2:
+                continue
+            nm, val = ps[0].ret.items
+            if not (isinstance(nm, M.Call) and nm.callee.endswith('to_owned') and ci.name_of(nm.args[0]) == '_2'):
+                bad.append('closure does not use the given name')
+            # value: Number(v.into()) possibly wrapped in Simple(..)
+            inner = val
+            for _ in range(3):
+                if isinstance(inner, M.Adt) and inner.fields:
+                    inner = inner.fields[0]
+            if not (isinstance(inner, M.Call) and _is(ci, inner.args[0], '_3')):
+                bad.append('closure does not use the given channel value')
+        ob['detail'] = f'variants {sorted(seen)}'
+    except (M.MirError, ValueError) as e:
+        return [_finish(ob, t0, [f'MIR not interpretable: {e}'], unknown=True)]
+    return [_finish(ob, t0, bad, unknown=any(b.startswith('UNKNOWN') for b in bad))]
+
+
+def replay_color_gadget(workdir):
+    import os
+    from ..tv import driver as D
+    os.makedirs(workdir, exist_ok=True)
+    failed = []
+    for s_, want in (('#102030', (16, 32, 48, 255)), ('#80102030', (16, 32, 48, 128)), ('red', (255, 0, 0, 255)), ('#abc', (170, 187, 204, 255)), ('#1abc', (170, 187, 204, 17))):
+        text = f'import qmluic.QtWidgets\nQWidget {{\n  QGraphicsView {{ backgroundBrush.color: "{s_}" }}\n}}\n'
+        r = D.run_cli(C.build_native(), workdir, text, 'Gad')
+        got = None
+        if r.ui is not None:
+            m = re.search(r'<color alpha="(\d+)">(.*?)</color>', r.ui, re.S)
+            if m:
+                ch = {k: re.search(rf'<{k}>(\d+)</{k}>', m.group(2)) for k in ('red', 'green', 'blue')}
+                if all(ch.values()):
+                    got = tuple(int(ch[k].group(1)) for k in ('red', 'green', 'blue')) + (int(m.group(1)),)
+        if got != want:
+            failed.append({'colour': s_, 'expected (r,g,b,alpha)': want, 'actual': got})
+    with open(os.path.join(workdir, 'README.txt'), 'w') as f:
+        f.write('qmluic generate-ui Gad.qml; failed: %s\n' % failed)
+    return bool(failed), {'failed_probes': failed}
+
+
+# ================================================================================================ C12 item / flow
+def c12_item_and_flow(fns, consts):
+    obs = []
+    # --- LayoutItem::new ------------------------------------------------------------------------------------
+    ob = _ob('c12_mir_layout_item_new', 'uigen::layout::LayoutItem::new (+ closures)', 'the single path (calls uninterpreted)',
+             'the item gets the given (row, column) in this order, and alignment / column span / row span from the attached getters of the same name')
+    t0 = time.time()
+    bad = []
+    try:
+        fn = M.find_fn(fns, r'layout\.rs:\d+:1: \d+:\d+>::new$') if False else None
+        cands = [f for n, f in fns.items() if n.endswith('::new') and f.header.rstrip(' {').endswith('-> LayoutItem')]
+        if len(cands) != 1:
+            raise M.MirError(f'{len(cands)} candidates for LayoutItem::new')
+        it = M.Interp(cands[0], consts)
+        ps = [p for p in it.run() if p.end == 'return']
+        if len(ps) != 1 or not isinstance(ps[0].ret, M.Adt) or not ps[0].ret.names:
+            raise M.MirError('LayoutItem::new is not a plain struct literal')
+        r = ps[0].ret
+        if it.name_of(r.field('row')) != '_1':
+            bad.append('item.row is not the given row')
+        if it.name_of(r.field('column')) != '_2':
+            bad.append('item.column is not the given column')
+        for f, getter in (('alignment', 'alignment'), ('column_span', 'column_span'), ('row_span', 'row_span')):
+            v = r.field(f)
+            if not (isinstance(v, M.Call) and v.callee.endswith('::map') and isinstance(v.args[0], M.Call) and v.args[0].callee.split('::')[-1] == getter):
+                bad.append(f'item.{f} is not taken from Layout.{getter}')
+        # the three closures keep the value (second tuple component)
+        for n, f in fns.items():
+            if n.startswith(cands[0].name + '::{closure#'):
+                ci = M.Interp(f, consts)
+                cp = [p for p in ci.run() if p.end == 'return']
+                if len(cp) != 1 or ci.name_of(cp[0].ret) not in ('_2.1',) and not (z3.is_expr(cp[0].ret) and str(cp[0].ret) == '_2.1'):
+                    bad.append(f'closure {n.split("::")[-1]} does not return the attached value')
+    except (M.MirError, ValueError) as e:
+        obs.append(_finish(ob, t0, [f'MIR not interpretable: {e}'], unknown=True))
+    else:
+        obs.append(_finish(ob, t0, bad))
+
+    # --- LayoutItem::serialize_to_xml -------------------------------------------------------------------------
+    ob = _ob('c12_mir_layout_item_xml', 'uigen::layout::LayoutItem::serialize_to_xml (attribute section)', 'all 32 combinations of present / absent fields',
+             'alignment, column, colspan, row, rowspan are written iff the field of that meaning is set, each from its own field')
+    t0 = time.time()
+    bad = []
+    try:
+        fields = struct_fields('lib/src/uigen/layout.rs', 'LayoutItem')
+        xml_of = {'alignment': 'alignment', 'column': 'column', 'column_span': 'colspan', 'row': 'row', 'row_span': 'rowspan'}
+        cands = [f for n, f in fns.items() if n.endswith('::serialize_to_xml') and '(_1: &LayoutItem,' in f.header]
+        if len(cands) != 1:
+            raise M.MirError(f'{len(cands)} candidates for LayoutItem::serialize_to_xml')
+        it = M.Interp(cands[0], consts)
+        it.stop_at = ('write_event',)
+        paths = [p for p in it.run(max_paths=200) if p.end == 'stop']
+        if len(paths) != 32:
+            bad.append(f'{len(paths)} paths, expected 32')
+        for p in paths:
+            s = z3.Solver()
+            s.add(*p.pc)
+            present = {}
+            for f in xml_of:
+                d = it.leaf(f'_1.*.{fields.index(f)}.discr', 'isize')
+                present[f] = s.check(d != 1) == z3.unsat
+            written = {}
+            for c in p.calls:
+                if c.callee.endswith('push_attribute') and isinstance(c.args[1], M.Tup) and isinstance(c.args[1].items[0], tuple):
+                    v = c.args[1].items[1]
+                    src = None
+                    for _ in range(8):
+                        n = it.name_of(v) if not z3.is_expr(v) else str(v)
+                        m = re.search(r'_1\.\*\.(\d+)@Some', n or '')
+                        if m:
+                            src = int(m.group(1))
+                            break
+                        if isinstance(v, M.Ref):
+                            v = v.target
+                        elif isinstance(v, M.Call) and v.args:
+                            v = v.args[0]
+                        else:
+                            break
+                    written[c.args[1].items[0][1]] = src
+            for f, x in xml_of.items():
+                if present[f] != (x in written):
+                    bad.append(f'{x} written={x in written} although {f} present={present[f]}')
+                if x in written and written[x] != fields.index(f):
+                    bad.append(f'{x} is written from field #{written[x]} instead of {f}')
+            for x in written:
+                if x not in xml_of.values():
+                    bad.append(f'unexpected attribute {x}')
+    except (M.MirError, ValueError) as e:
+        obs.append(_finish(ob, t0, [f'MIR not interpretable: {e}'], unknown=True))
+    else:
+        obs.append(_finish(ob, t0, sorted(set(bad))))
+
+    # --- LayoutFlow::parse count check --------------------------------------------------------------------------
+    ob = _ob('c12_mir_flow_count_check', 'uigen::layout::LayoutFlow::parse::{closure#0}::{closure#0}', 'all counts c (mathematical integers)',
+             'a columns/rows count is used iff 1 <= c <= 65536; every other value pushes a diagnostic')
+    t0 = time.time()
+    bad = []
+    try:
+        fn = M.find_fn(fns, r'>::parse::\{closure#0\}::\{closure#0\}$')
+        it = M.Interp(fn, consts)
+        c = it.leaf('_2.1', 'i32')
+        paths = [p for p in it.run() if p.end == 'return']
+        ok_range = z3.And(c >= 1, c <= 65536)
+        for p in paths:
+            r = p.ret
+            if isinstance(r, M.Adt) and r.path.endswith('Option::Some'):
+                _unsat(p.pc + [z3.Or(z3.Not(ok_range), r.fields[0] != c)], bad, 'a count outside [1, 65536] (or another value) is used')
+            elif isinstance(r, M.Adt) and r.path.endswith('Option::None'):
+                _unsat(p.pc + [ok_range], bad, 'a count inside [1, 65536] is refused')
+                if not any(k.callee.endswith('Diagnostics::push') for k in p.calls):
+                    bad.append('a refused count is not diagnosed')
+            else:
+                bad.append(f'unexpected return {r!r}')
+        _unsat([z3.Not(z3.Or([z3.And(p.pc) for p in paths]))], bad, 'path conditions are not exhaustive')
+    except (M.MirError, ValueError) as e:
+        obs.append(_finish(ob, t0, [f'MIR not interpretable: {e}'], unknown=True))
+    else:
+        obs.append(_finish(ob, t0, bad, unknown=any(b.startswith('UNKNOWN') for b in bad)))
+    return obs
